@@ -12,6 +12,21 @@ CHECKS = {
         "text": "Exploration: thousands (quick) to hundreds of thousands (thorough) of distinct generated programs (type x recipe x options) each with a generated value; dump must succeed, load(dump(x)) must be type-exactly equal to x, also after json.dumps/json.loads and through AdaptixJSON bind/result.",
         "note": "Trusted: the harness's type-aware comparator and class builder; unions are generated with provably non-overlapping, dumpable cases; values stay inside documented lossless ranges (timedelta, Pattern flags).",
     },
+    "C02": {
+        "technique": "property-based testing against a reference model: Hypothesis-generated non-model type expressions x data soup / near-valid mutations x 6 modes, compared with an independent three-valued interpreter of the documented per-type rules; exhaustive small sub-check of the union dumper's MRO rule",
+        "text": "Exploration: accept(v) must load to a type-exactly equal value, reject must raise, unspecified is only counted; dumps must equal the documented outer form including container classes.",
+        "note": "Trusted: the reference interpreter (vkit/refload.py, vkit/tspec.ref_dump) transcribed from specific-types-behavior.rst; Python constructors as the lax-coercion oracle.",
+    },
+    "C06": {
+        "technique": "differential property-based testing: the three debug_trail programs (DISABLE/FIRST/ALL) of one generated specification run on fresh copies of one generated input (soup, near-valid, corrupted values for dumping)",
+        "text": "Exploration: the modes must agree on success, on results, and the DISABLE/FIRST error must correspond (class, input value) to an error collected under ALL.",
+        "note": "Trusted: structural comparator (canon); 'same class' read as 'ALL has a node that is-a the class raised' because the union loader raises bare LoadError under DISABLE (pinned by the suite).",
+    },
+    "C07": {
+        "technique": "differential property-based testing: strict vs lax retort on one generated (type, datum); positional walk of type and datum against the documented 'allowed strict origins' table",
+        "text": "Exploration: strict-accepted data must be lax-accepted with an equal value (unless unions overlap under lax rules), and strict acceptance must respect the documented origins at every position.",
+        "note": "Trusted: the origins table transcription; overlap analysis (tspec.lax_safe).",
+    },
     "C04": {
         "technique": "property-based testing / fuzzing: Hypothesis-generated type expressions x data soup (arbitrary data and near-valid mutations of valid dumps) x 6 modes with an exception-validity oracle; user-code sub-check for the second sentence",
         "text": "Exploration: every escaping exception tree must consist of LoadError nodes only; with user code raising ArithmeticError the escaping exception must not be classified as LoadError.",
